@@ -52,7 +52,7 @@ FixedNext == \E a \in Arg : FWrite(a) \/ FSeek(a) \/ FSeekForward(a) \/ FSeekBac
 ---------------------------------------------------------------------------------------------------
 (* "grow": position always equals length; content is what the history implies.  Length is capped at N by *)
 (* not offering steps that would exceed it (the real writer has no such cap).                             *)
-GrowInit == pos = 0 /\ cells = <<>> /\ stamp = 1
+GrowInit == pos = 0 /\ cells = <<>> /\ stamp = 1        \* whatever preallocation hint the writer was constructed with (the harness rotates through the constructors)
 GWrite(k) == /\ stamp <= 3 /\ IsSmall(k) /\ Len(cells) + k <= N
              /\ FStep("Write", k, "ok", pos + k, cells \o [i \in 1..k |-> stamp], stamp + 1)
 GSeekForward(d) == IF ~IsSmall(d) THEN FStep("SeekForward", d, "err", pos, cells, stamp)     \* beyond any buffer: refused
